@@ -35,6 +35,7 @@ def check(run, repo, tier):
   V(run, repo, r4_prepare)
   from ._extra import c20_adjustment_pairing
   V(run, repo, c20_adjustment_pairing, "C20-R5")
+  H.finish_views(run, repo)
 
 
 def _super_calls(fn, meth):
@@ -172,29 +173,32 @@ def r4_prepare(run, w):
   flow = H.Flow(fn, passthrough=False)
   ps = fn.fi.params()
   p_vals, p_ignore = ps[2], ps[3]
-  pi = [(n, c) for (n, c, nm) in fn.calls() if endswith(nm, "prepare_inserts")]
+  pi = [(n, c) for (n, c, nm) in H.calls(fn) if endswith(nm, "prepare_inserts")]
   if len(pi) != 1:
     raise AnalysisError("PositionColumn.prepare_new_values: prepare_inserts call not found")
   (pn, pc) = pi[0]
   SR = "_sorted_rows"
 
-  def list_origins(expr, nid):
-    """{'sorted' | 'empty' | other} for a list expression, looking through
-    SortedListWithKey(<list>, ...) wrappers."""
-    out = set()
-    for r in flow.roots(expr, nid):
-      if r.kind == "param" and r.node == "self" and r.path == (("attr", SR),):
-        out.add("sorted")
-      elif r.kind == "lit" and isinstance(r.node, ast.List) and not r.node.elts and not r.path:
-        out.add("empty")
-      elif r.kind == "call" and endswith(dotted(r.node.func), "SortedListWithKey") and \
-          r.node.args and not r.path:
-        out |= list_origins(r.node.args[0], r.nid)
+  def list_cases(expr, nid, atoms=(), depth=0):
+    """[(kind, atoms)] with kind 'sorted' | 'empty' | 'other:...' for a list expression, looking
+    through SortedListWithKey(<list>, ...) wrappers, conditional values and locals."""
+    out = []
+    for case in H.value_cases(fn, flow, expr, nid):
+      v = case.value
+      at = list(atoms) + list(case.atoms)
+      if H.is_self_attr(v, SR) or fn.name(v) == "self." + SR:
+        out.append(("sorted", at))
+      elif isinstance(v, ast.List) and not v.elts:
+        out.append(("empty", at))
+      elif isinstance(v, ast.Call) and endswith(fn.name(v.func) or dotted(v.func),
+                                                "SortedListWithKey") and v.args and depth < 4:
+        out.extend(list_cases(v.args[0], flow.node_of(v), at, depth + 1))
       else:
-        out.add("other:%r" % r)
+        out.append(("other:%s" % short(v, 50), at))
     return out
 
-  org = list_origins(pc.args[0], pn.id) if pc.args else set()
+  lc = list_cases(pc.args[0], pn.id) if pc.args else []
+  org = {k for (k, at) in lc}
   run.ob(R4, fn.qualname, short(pc), "prepare_inserts is asked about the rows currently in the "
          "sorted list (or none)", bool(org) and org <= {"sorted", "empty"} and "sorted" in org,
          witness=", ".join(sorted(org)), fi=fn.fi, node=pc)
@@ -203,35 +207,33 @@ def r4_prepare(run, w):
          "values being written", bool(rs) and all(r.kind == "param" and r.node == p_vals and
                                                   not r.path for r in rs), fi=fn.fi, node=pc)
   # the empty list is used exactly when ignore_data is set
-  ok = False
-  for s in walk_no_nested(fn.node):
-    if isinstance(s, ast.If) and text(s.test) == p_ignore:
-      b = [x for x in s.body if isinstance(x, ast.Assign)]
-      o = [x for x in s.orelse if isinstance(x, ast.Assign)]
-      if len(b) == 1 and len(o) == 1 and text(b[0].targets[0]) == text(o[0].targets[0]) and \
-          isinstance(b[0].value, ast.List) and not b[0].value.elts and \
-          H.is_self_attr(o[0].value, SR):
-        ok = True
-    if isinstance(s, ast.Assign) and isinstance(s.value, ast.IfExp) and \
-        text(s.value.test) == p_ignore and isinstance(s.value.body, ast.List) and \
-        not s.value.body.elts and H.is_self_attr(s.value.orelse, SR):
-      ok = True
+  def says(at, pol):
+    return any(text(t) == p_ignore and p is pol for (t, p) in at)
+  ok = any(k == "empty" for (k, at) in lc) and any(k == "sorted" for (k, at) in lc) and \
+      all(says(at, True) for (k, at) in lc if k == "empty") and \
+      all(says(at, False) for (k, at) in lc if k == "sorted") and \
+      not flow.du.defs.get(p_ignore)
   run.ob(R4, fn.qualname, "rows = [] if %s else self.%s" % (p_ignore, SR),
          "existing positions are disregarded exactly when the table data is being replaced", ok,
          fi=fn.fi)
   # adjustments -> action
+  a2a_fi = w.fn("column._adjustments_to_action").fi
   a2a = [(flow.node_of(c), c) for c in calls_in(fn.node)
-         if dotted(c.func) == "_adjustments_to_action"]
+         if (fn.name(c.func) or dotted(c.func)) == "_adjustments_to_action"]
   if len(a2a) != 1:
     raise AnalysisError("PositionColumn.prepare_new_values: _adjustments_to_action not found")
   (an, ac) = a2a[0]
-  pairs = ac.args[1] if len(ac.args) == 2 else None
-  ok = text(ac.args[0]) == "self.node" and isinstance(pairs, ast.ListComp) and \
-      len(pairs.generators) == 1 and not pairs.generators[0].ifs
+  b = H.bind_args(ac, a2a_fi, skip_self=False)
+  a_node, a_pairs = [b.get(x) for x in a2a_fi.params()[:2]]
+  pairs = H.resolve(flow, a_pairs, an) if a_pairs is not None else None
+  ok = a_node is not None and fn.name(a_node) == "self.node" and \
+      isinstance(pairs, ast.ListComp) and len(pairs.generators) == 1 and \
+      not pairs.generators[0].ifs
   wit = None
   if ok:
     g = pairs.generators[0]
-    it = flow.roots(g.iter, an)
+    cn = flow.node_of(pairs)
+    it = flow.roots(g.iter, cn)
     ok = bool(it) and all(r.kind == "call" and r.node is pc and r.path == (("idx", 0),)
                           for r in it)
     if ok:
@@ -242,23 +244,31 @@ def r4_prepare(run, w):
       e0, e1 = pairs.elt.elts
       ok = text(e1) == pv and isinstance(e0, ast.Subscript) and text(e0.slice) == iv
       if ok:
-        org = list_origins(e0.value, an)
+        org = {k for (k, at) in list_cases(e0.value, cn)}
         ok = bool(org) and org <= {"sorted", "empty"}
         wit = ", ".join(sorted(org))
   run.ob(R4, fn.qualname, short(ac), "each adjustment index is turned into the row at that "
          "index of the sorted order prepare_inserts saw, and the action targets this column",
          ok, witness=wit, fi=fn.fi, node=ac)
-  rets = H.returns_of(fn.node)
-  ok = len(rets) == 1 and isinstance(rets[0].value, ast.Tuple) and len(rets[0].value.elts) == 2
-  if ok:
-    nv, adj = rets[0].value.elts
-    r0 = flow.roots(nv, flow.node_of(nv))
-    ok = bool(r0) and all(r.kind == "call" and r.node is pc and r.path == (("idx", 1),)
-                          for r in r0)
-    names = {x.id for x in ast.walk(adj) if isinstance(x, ast.Name)}
-    tgt = [s.targets[0].id for s in walk_no_nested(fn.node) if isinstance(s, ast.Assign) and
-           s.value is ac and isinstance(s.targets[0], ast.Name)]
-    ok = ok and bool(tgt) and tgt[0] in names
+  cases = [c for c in H.return_cases(fn.node)]
+  ok = bool(cases)
+  for case in cases:
+    rn = [m.id for m in fn.cfg.nodes if m.stmt is case.stmt][0]
+    v = H.resolve(flow, case.value, rn) if case.value is not None else None
+    okc = isinstance(v, ast.Tuple) and len(v.elts) == 2
+    if okc:
+      nv, adj = v.elts
+      r0 = flow.roots(nv, rn)
+      okc = bool(r0) and all(r.kind == "call" and r.node is pc and r.path == (("idx", 1),)
+                             for r in r0)
+      carried = any(x is ac for x in ast.walk(adj))
+      for x in ast.walk(adj):
+        if isinstance(x, ast.Name) and isinstance(x.ctx, ast.Load):
+          rx = flow.roots(x, rn)
+          if rx and all(r.kind == "call" and r.node is ac and not r.path for r in rx):
+            carried = True
+      okc = okc and carried
+    ok = ok and okc
   run.ob(R4, fn.qualname, "return <new keys of prepare_inserts>, [<adjustment action>]",
          "the caller receives the relabelled positions for the new rows and the action that "
          "moves existing rows out of the way", ok, fi=fn.fi)
